@@ -191,6 +191,8 @@ type World struct {
 	TruncateAt uint64
 	// Quiet suppresses the snapshot after every operation (long ledgers are observed at milestones).
 	Quiet bool
+	// LastTruncateErr: result of the most recent TruncateChecked
+	LastTruncateErr error
 }
 
 type slowVerifier struct {
